@@ -3,17 +3,17 @@ package main
 // Mapping of properties to the rules that decide their structural clauses (DESIGN.md section 5).
 // A rule listed for several properties runs once per process; its obligations count for each of them.
 var propertyRules = map[string][]string{
-	"C01": {"LK1", "LK2", "LK3", "LK4", "LK5", "LK6", "RD1", "RD2", "VD2", "VD3", "OU3", "WR3", "WR5", "ST1"},
-	"C02": {"LK1", "LK2", "LK3", "LK4", "LK5", "LK6", "WR1", "WR2", "WR3", "WR5", "DT4", "VD1", "ST1"},
+	"C01": {"LK1", "LK2", "LK3", "LK4", "LK5", "LK8", "LK6", "RD1", "RD2", "VD2", "VD3", "OU3", "WR3", "WR5", "ST1"},
+	"C02": {"LK1", "LK2", "LK3", "LK4", "LK5", "LK8", "LK6", "WR1", "WR2", "WR3", "WR5", "DT4", "VD1", "ST1"},
 	"C03": {"WR1", "WR2", "WR3", "WR4", "WR5", "WR6", "LK1", "LK3"},
-	"C04": {"WR3", "LK5", "WR1", "VD1"},
+	"C04": {"WR3", "LK5", "LK8", "WR1", "VD1"},
 	"C05": {"DT5", "DT4", "WR1", "LK2", "LK4", "OU4"},
 	"C06": {"VD2", "VD3", "VD4", "VD1", "VD11", "VD12", "VD14"},
-	"C07": {"VD5", "VD6", "LK2", "LK3", "LK4", "LK5", "VD1", "VD13", "VD15"},
+	"C07": {"VD5", "VD6", "LK2", "LK3", "LK4", "LK5", "LK8", "VD1", "VD13", "VD15"},
 	"C08": {"RD1", "RD2", "VD6"},
 	"C09": {"VD7", "VD6", "VD8", "VD10", "LK4", "DT2", "DT5"},
-	"C10": {"VD1", "LK5", "WR1", "WR3", "WR5", "VD11", "VD12", "VD14"},
-	"C11": {"VD12", "VD13", "VD15", "VD1", "VD5", "VD10", "LK5", "WR1", "WR2", "OU3", "OU4"},
+	"C10": {"VD1", "LK5", "LK8", "WR1", "WR3", "WR5", "VD11", "VD12", "VD14"},
+	"C11": {"VD12", "VD13", "VD15", "VD1", "VD5", "VD10", "LK5", "LK8", "WR1", "WR2", "OU3", "OU4"},
 	"C12": {"DT1", "DT2", "DT3", "DT4", "WR2", "LK6"},
 	"C13": {"LK7", "WR1", "WR3", "WR6", "DT2"},
 	"C14": {"VD8", "VD7", "VD13", "DT5"},
